@@ -237,7 +237,7 @@ func init() {
 			return mkScalar(deepEqual(a[0], a[1], 0), types.Bool)
 		},
 		vxPkg + "Sin": ufMath("sin"), vxPkg + "Cos": ufMath("cos"), vxPkg + "Tan": ufMath("tan"),
-		vxPkg + "ApproxEq": func(fr *frame, a []value) value {
+		vxPkg + "RealEq": func(fr *frame, a []value) value {
 			if x, ok := a[0].(float64); ok {
 				if y, ok := a[1].(float64); ok {
 					d := math.Abs(x - y)
@@ -245,6 +245,25 @@ func init() {
 				}
 			}
 			return mkScalar(sym.Eq(termOf(a[0], false), termOf(a[1], false)), types.Bool)
+		},
+		vxPkg + "ApproxEq": func(fr *frame, a []value) value {
+			if x, ok := a[0].(float64); ok {
+				if y, ok := a[1].(float64); ok {
+					d := math.Abs(x - y)
+					return d <= 1e-4*math.Max(1, math.Max(math.Abs(x), math.Abs(y)))
+				}
+			}
+			// |x-y| <= 1e-4 * max(1, |x|, |y|), the same tolerance as the native runtime
+			x, y := termOf(a[0], false), termOf(a[1], false)
+			zero := sym.RealConst(new(big.Rat))
+			abs := func(t *sym.Term) *sym.Term { return sym.Ite(sym.Lt(t, zero), sym.Neg(t), t) }
+			ax, ay := abs(x), abs(y)
+			m := sym.RealConst(big.NewRat(1, 1))
+			m = sym.Ite(sym.Lt(m, ax), ax, m)
+			m = sym.Ite(sym.Lt(m, ay), ay, m)
+			tol := sym.Arith(sym.OMul, m, sym.RealConst(big.NewRat(1, 10000)))
+			d := sym.Arith(sym.OSub, x, y)
+			return mkScalar(sym.And(sym.Le(d, tol), sym.Le(sym.Neg(d), tol)), types.Bool)
 		},
 	})
 	regStd()
